@@ -73,11 +73,11 @@ func c15NewUniverse(thorough bool) *c15Universe {
 		mods1: []string{"basename", "dirname", "%.txt", "%_s", "s/a/b/"}, len1: 2,
 		mods23: []string{"basename", "dirname", "%.txt", "%_s", "s/a/b/"}, len2: 1, len3: 1, lenSec: 1, lenMV: 1,
 		vals: map[string][]string{
-			"x": {"d/e.txt", "a.b/c", "x/d/e_s", "e.txt", "d/xt.txt"}, // "xt.txt": the stem ends in characters of the suffix
+			"x": {"d/e.txt", "a.b/c", "x/d/e_s", "e.txt", "d/xt.txt", "a/a.txt"}, // "xt.txt": the stem ends in characters of the suffix; "a/a.txt": the search string occurs twice
 			"u": {"f/g.txt", "a_s"},
-			"z": {"v", "a_s", "d/e.txt", "ss_s"},
+			"z": {"v", "a_s", "d/e.txt", "ss_s", "aa"},
 			"q": {"7", "a.txt"},
-			"w": {"g", "a.txt"},
+			"w": {"g", "a.txt", "aa"},
 			"y": {"o.txt", "d/a_s"},
 		},
 		lits: map[string][]string{"cmd": {"L"}, "setout": {"_L"}},
@@ -100,9 +100,9 @@ func c15NewUniverse(thorough bool) *c15Universe {
 		u.len2 = 2
 		u.len3 = 2
 		u.lenMV = 2
-		u.vals["x"] = append(u.vals["x"], "/r/a.txt", "d/e.txt.gz", "a/a.txt", "../k/a.txt", "d/.txt", "na_s", ".txt")
-		u.vals["z"] = append(u.vals["z"], "1.5", "aa", "_s", ".txt")
-		u.vals["w"] = append(u.vals["w"], "x/a_s", "aa")
+		u.vals["x"] = append(u.vals["x"], "/r/a.txt", "d/e.txt.gz", "../k/a.txt", "d/.txt", "na_s", ".txt")
+		u.vals["z"] = append(u.vals["z"], "1.5", "_s", ".txt")
+		u.vals["w"] = append(u.vals["w"], "x/a_s")
 		u.vals["y"] = append(u.vals["y"], "r/d/o.txt", "a.txt")
 		u.lits["cmd"] = append(u.lits["cmd"], "/n")
 		u.lits["setout"] = append(u.lits["setout"], "/n", ".")
@@ -183,7 +183,7 @@ func c15Names(items []c15Item) []string {
 //   %<string>       removes <string> from the END of the path
 //   s/<a>/<b>/      simple search and replace of <a> by <b>
 // applied left to right. Deliberately silent (the case is then not judged) where the
-// documentation is: <a> occurring more than once, <string> equal to the whole value,
+// documentation is: <string> equal to the whole value,
 // dirname of a file directly under "/". A value without any folder given to dirname: the
 // documented result "only the folder path" is the empty path - both spellings "" and "."
 // are accepted.
@@ -234,14 +234,12 @@ func c15RefMods(v string, mods []string) c15Exp {
 		case strings.HasPrefix(m, "s/"):
 			f := strings.Split(m, "/") // s, a, b, ""
 			a, b := f[1], f[2]
-			switch strings.Count(c, a) {
-			case 0:
-				return c, "\x00", ""
-			case 1:
-				i := strings.Index(c, a)
+			// the notation is sed's substitute command without the g flag: where <a> occurs
+			// more than once the FIRST occurrence is the one replaced
+			if i := strings.Index(c, a); i >= 0 {
 				return c[:i] + b + c[i+len(a):], "\x00", ""
 			}
-			return "", "\x00", "search string occurs more than once"
+			return c, "\x00", ""
 		}
 		return "", "\x00", "modifier outside the documented set"
 	}
